@@ -177,8 +177,14 @@ def run(ctx):
                     continue
                 hsite = ev[1]
                 hq = getattr(hsite, "fn", None) or ""
-                if not (hq == q or (hq.startswith(own_mod + ".") and hq.split(".")[-1].startswith("_")) or hq.startswith(q + ".")):
-                    continue  # a library predicate's own probe (is_*), not the signer's handler
+                own_handler = hq == q or (hq.startswith(own_mod + ".") and hq.split(".")[-1].startswith("_")) or hq.startswith(q + ".")
+                # ... or a handler elsewhere (a context manager used by the signer) that catches an
+                # exception which came out of the signer's own statements
+                chain = ev[6] if len(ev) > 6 else ()
+                top_fn = getattr(chain[0], "fn", "") if chain else ""
+                own_failure = bool(chain) and (top_fn == q or top_fn.startswith(q + ".") or (top_fn.startswith(own_mod + ".") and top_fn.split(".")[-1].startswith("_")))
+                if not (own_handler or own_failure):
+                    continue  # a library predicate's own probe (is_*), not a failure of the signer
                 swallowed.setdefault(hsite.key(), (hsite, ev[2]))
         ctx.count("R5.signers")
         ctx.ob(
@@ -213,6 +219,36 @@ def run(ctx):
                 if e2[0] == "call" and e2[2] == "builtin:open" and e2[3] and e2[3][0] == ev[3][0] and write_mode(open_mode(e2)):
                     early += 1
     ctx.ob("R4", "cli-key-gate", site.loc(), "cli_sign_artifacts calls the signer %s" % ("only with a key that passed the 64-hex gate, and does not open the repodata file itself" if bad == 0 and early == 0 and n else "without the hex-key gate dominating the call, or after opening the target itself"), bad == 0 and early == 0 and n > 0)
+
+    # ---- R4b: one command = one all-or-nothing write: a CLI handler calls an in-place signer at
+    # most once on a path and never from inside a loop (a later call that fails would leave the
+    # file as the earlier calls wrote it)
+    from sa.extract import subparsers, subparsers_from_events
+
+    subs = subparsers(prog)
+    if not any(v.get("func") for v in subs.values()):
+        subs = subparsers_from_events(eng) or subs
+    callees = {"repo:" + q2 for q2 in SIGNERS}
+    for name, sub in sorted(subs.items()):
+        if not sub.get("func") or sub["func"] not in prog.funcs:
+            continue
+        if not (cg.cone([sub["func"]]) & set(SIGNERS)):
+            continue
+        smh = eng.walk(sub["func"])
+        in_loop = multiple = 0
+        for p in smh.paths:
+            top = [ev for ev, _d in flatten_events(p.events) if ev[0] == "call" and ev[2] in callees]
+            if len(top) > 1:
+                multiple += 1
+            for ev, _d in flatten_events(p.events):
+                if ev[0] in ("loop", "while"):
+                    bodies = ev[4] if ev[0] == "loop" else ev[2]
+                    for bp in bodies:
+                        if any(e2[0] == "call" and e2[2] in callees for e2 in all_events(bp[2])):
+                            in_loop += 1
+        ctx.count("R4.signing_commands")
+        ctx.ob("R4", "one-write-per-command|%s" % sub["func"], fn_site(eng, smh).loc(), "%s %s" % (sub["func"], "calls the in-place signer once per invocation" if not (in_loop or multiple) else "calls an in-place signer %s: when a later call fails the file keeps what the earlier calls wrote" % ("inside a loop" if in_loop else "more than once")), not (in_loop or multiple))
+    ctx.floor("R4.signing_commands", 2)
 
 
 def show_ev(ev):
